@@ -54,6 +54,14 @@ type simAPI struct {
 	crashOn map[string]bool
 	delay   func(method, path string) time.Duration
 	clock   int64
+	// trace: mutating requests (with object names) and waiter calls, in order
+	trace []string
+}
+
+func (s *simAPI) traceEv(ev string) {
+	s.mu.Lock()
+	s.trace = append(s.trace, ev)
+	s.mu.Unlock()
 }
 
 func newSimAPI(frozen *bool) *simAPI {
@@ -104,6 +112,9 @@ func (s *simAPI) rt(req *http.Request) (*http.Response, error) {
 		if md, ok := o["metadata"].(map[string]any); ok {
 			full += "/" + fmt.Sprint(md["name"])
 		}
+	}
+	if req.Method != "GET" {
+		s.trace = append(s.trace, full)
 	}
 	for k := range s.crashOn {
 		if strings.Contains(full, k) {
@@ -215,6 +226,16 @@ type waitPlan struct {
 type scriptWaiter struct {
 	plan   *waitPlan
 	frozen *bool
+	api    *simAPI
+}
+
+func (w scriptWaiter) tr(kind string, rs kube.ResourceList) {
+	if w.api == nil {
+		return
+	}
+	for _, r := range rs {
+		w.api.traceEv(kind + " " + r.Name)
+	}
 }
 
 func (w scriptWaiter) outcome(d string) error {
@@ -236,17 +257,23 @@ func (w scriptWaiter) nextWait() string {
 	}
 	return w.plan.mainWait
 }
-func (w scriptWaiter) Wait(kube.ResourceList, time.Duration) error { return w.outcome(w.nextWait()) }
-func (w scriptWaiter) WaitWithJobs(kube.ResourceList, time.Duration) error {
+func (w scriptWaiter) Wait(rs kube.ResourceList, _ time.Duration) error {
+	w.tr("WAIT", rs)
 	return w.outcome(w.nextWait())
 }
-func (w scriptWaiter) WaitForDelete(kube.ResourceList, time.Duration) error {
+func (w scriptWaiter) WaitWithJobs(rs kube.ResourceList, _ time.Duration) error {
+	w.tr("WAIT", rs)
+	return w.outcome(w.nextWait())
+}
+func (w scriptWaiter) WaitForDelete(rs kube.ResourceList, _ time.Duration) error {
+	w.tr("WAITDEL", rs)
 	if *w.frozen {
 		return errors.New("dead")
 	}
 	return nil
 }
 func (w scriptWaiter) WatchUntilReady(rs kube.ResourceList, _ time.Duration) error {
+	w.tr("WATCH", rs)
 	for _, r := range rs {
 		for pfx, d := range w.plan.hookFail {
 			if strings.HasPrefix(r.Name, pfx) {
@@ -450,7 +477,7 @@ func (w *simWorld) cfg() *action.Configuration {
 	return &action.Configuration{
 		RESTClientGetter: simGetter{w.tf},
 		Releases:         storage.Init(fd),
-		KubeClient:       simKube{Client: client, w: scriptWaiter{plan: &w.wplan, frozen: &w.frozen}, reachable: &w.reachable, frozen: &w.frozen},
+		KubeClient:       simKube{Client: client, w: scriptWaiter{plan: &w.wplan, frozen: &w.frozen, api: w.api}, reachable: &w.reachable, frozen: &w.frozen},
 		Capabilities:     chartutil.DefaultCapabilities,
 	}
 }
